@@ -197,6 +197,14 @@ def directed(run, prop, tier, seed):
                 (f"*=0x008000\n.scope outer {{\nlim = {a}\n.scope mid {{\n{{\n.db lim\n}}\n}}\n}}\n", bytes([a])),
             ]
         elif prop == "C09":
+            # an assembly that fails inside a macro body (an undefined macro applied there, too few arguments in a nested
+            # application) leaves nothing behind: the corrected source, assembled next in the same process, expands completely
+            fam += [
+                (f"*=0x008000\n.macro outer_zq(n) {{\n.db n\nmissing_zq(n)\n}}\nouter_zq({a})\n", None),
+                (f"*=0x008000\n.macro missing_zq(n) {{\n.db n + 1\n}}\n.macro outer_zq(n) {{\n.db n\nmissing_zq(n)\n}}\nouter_zq({a})\n", bytes([a, a + 1])),
+                (f"*=0x008000\n.macro two_zq(x, y) {{\n.db x, y\n}}\n.macro call_zq(n) {{\ntwo_zq(n)\n}}\ncall_zq({b})\n", None),
+                (f"*=0x008000\n.macro two_zq(x, y) {{\n.db x, y\n}}\n.macro call_zq(n) {{\ntwo_zq(n, n)\n}}\ncall_zq({b})\n", bytes([b, b])),
+            ]
             # what a macro body does to its scope stays in the application's scope, also for a macro without parameters and
             # without labels: a text table selected in the body is not the call site's table afterwards
             tfiles = {"ta_zq.tbl": "41=A\n42=B\n", "tb_zq.tbl": "61=A\n62=B\n"}
@@ -379,10 +387,69 @@ def emit_twice_stream(run, prop, tier, seed):
     return s
 
 
+def relocate_stream(run, prop, tier, seed):
+    """a relocatable routine: parsed once, then resolved and emitted at several positions on one Program"""
+    from a816.program import Program
+    rng = core.rng_for(seed, prop + "-relocate")
+    s = core.Stream("S4-relocate", "hand-written routines without `*=` (macro applications whose arguments name labels defined later, named scopes whose exported labels are used outside and before the scope, block-local labels, loops) parsed once; then, for three positions in turn on the same Program: resolver.set_position(p), resolve_labels, set_position(p), emit -- the blocks equal those of a fresh Program assembling `*=p` + the routine: every resolution binds parameters, exports and labels anew; non-trivial = distinct (routine, positions)")
+    routines = []
+    for i in range(6 if tier == "quick" else 60):
+        a, d = rng.randrange(1, 250), rng.randrange(0, 4)
+        routines += [
+            f".macro put_zq(target, delta) {{\n.dw target & 0xFFFF\n.db delta\njmp.w target + delta\n}}\nput_zq(later_zq, {d})\nnop\nput_zq(later_zq + 2, 0)\nlater_zq:\nrts\nnop\n",
+            f"jsr.w sc_zq.entry\n.dw sc_zq.entry, sc_zq.val\n.scope sc_zq {{\nval = {a}\n.db {a}\nentry:\nrts\n}}\n.dw sc_zq.entry\n",
+            f"{{\nloc_zq:\n.dw loc_zq\n.db {a}\n}}\n.for k_zq := 0, 3 {{\nit_zq:\n.dw it_zq\n.db k_zq\n}}\nend_zq:\n.dw end_zq\n",
+            f".macro wrap_zq(t) {{\n.scope in_zq {{\nhere:\n.dw t, here\n}}\n.dw in_zq.here\n}}\nwrap_zq(tail_zq)\n.db {a}\ntail_zq:\nwrap_zq(tail_zq + 1)\n",
+        ]
+    for src in routines:
+        positions = rng.sample([0x008000, 0x018400, 0x028010, 0x03ff00, 0x0a8123], 3)
+        got, want = [], []
+        try:
+            with impl.quiet(), core.watchdog(30):
+                prog = Program()
+                err, nodes = prog.parser.parse(src, "routine.s")
+                if err is not None:
+                    s.count("rejected-by-parser")
+                    continue
+                for pos in positions:
+                    try:
+                        prog.resolver.set_position(pos)
+                        prog.resolve_labels(nodes)
+                        prog.resolver.set_position(pos)
+                        w = impl.CollectWriter()
+                        prog.emit(nodes, w)
+                        got.append(list(w.blocks))
+                    except Exception as e:  # noqa: BLE001
+                        got.append(("raised", type(e).__name__, str(e)[:100]))
+                    w2 = impl.CollectWriter()
+                    try:
+                        e2 = Program().assemble_string_with_emitter(f"*=0x{pos:06x}\n" + src, "routine.s", w2)
+                        want.append(list(w2.blocks) if e2 is None else ("error", e2[:100]))
+                    except Exception as e:  # noqa: BLE001
+                        want.append(("raised", type(e).__name__, str(e)[:100]))
+        except core.Timeout:
+            continue
+        s.cases += 1
+        s.nontrivial.add((src, tuple(positions)))
+        s.count("relocated")
+        if got != want:
+            k = next(i for i, (x, y) in enumerate(zip(got, want)) if x != y)
+            s.violate({"src": src, "positions": [hex(p_) for p_ in positions], "api": "parse once; per position: set_position, resolve_labels, set_position, emit"},
+                      {"position": hex(positions[k]), "fresh Program": str(want[k])[:300]}, str(got[k])[:300],
+                      "a routine resolved and emitted again at another position on the same Program does not equal the fresh assembly at that position (a parameter, an exported scope label or a label keeps the value of an earlier resolution)")
+    s.sample({"src": routines[0]})
+    return s
+
+
 def run_prop(prop, ctx):
     run = pipeline.Runner()
     try:
         extra = [emit_twice_stream(run, prop, ctx["tier"], ctx["seed"])] if prop == "C08" else []
+        if prop in ("C08", "C09"):
+            extra.append(relocate_stream(run, prop, ctx["tier"], ctx["seed"]))
+        if prop == "C08":
+            from props.layout import c02_program_reuse
+            extra.append(c02_program_reuse(run, ctx["tier"], ctx["seed"]))
         return [twin_stream(run, prop, ctx["tier"], ctx["seed"]), directed(run, prop, ctx["tier"], ctx["seed"]),
                 pipeline.wild_stream(run, prop, ctx["tier"], ctx["seed"])] + extra + [run.repeat_stream()]
     finally:
